@@ -62,7 +62,7 @@ func (s testSvc[T]) Calc(buf *bytes.Buffer) T {
 	// build/dump per packet
 	for _, fp := range Flatten(p) {
 		k := fp.P
-		tn := "msg." + k.Name
+		tn := "msg." + strcase.ToCamel(k.Name)
 		fmt.Fprintf(&b, "func build_%s(tk *toks) *%s {\n\to := &%s{}\n", k.Name, tn, tn)
 		for _, f := range k.Fields {
 			m := "o." + strcase.ToCamel(f.Name)
@@ -83,9 +83,9 @@ func (s testSvc[T]) Calc(buf *bytes.Buffer) T {
 			case dsl.KFixed, dsl.KDyn:
 				elem, one = "string", "tk.str()"
 			case dsl.KObj:
-				elem, one = "*msg."+f.Ref, "build_"+f.Ref+"(tk)"
+				elem, one = "*msg."+strcase.ToCamel(f.Ref), "build_"+f.Ref+"(tk)"
 			case dsl.KInline:
-				elem, one = "*msg."+f.Inline.Name, "build_"+f.Inline.Name+"(tk)"
+				elem, one = "*msg."+strcase.ToCamel(f.Inline.Name), "build_"+f.Inline.Name+"(tk)"
 			case dsl.KMatch:
 				elem, one = "codec.BinaryCodec", "buildAny(tk)"
 			}
@@ -144,13 +144,13 @@ func (s testSvc[T]) Calc(buf *bytes.Buffer) T {
 	b.WriteString("\tdefault:\n\t\tpanic(\"packet \" + name)\n\t}\n}\n\n")
 	b.WriteString("func dumpAny(v codec.BinaryCodec, out *[]string) {\n\tswitch x := v.(type) {\n")
 	for _, k := range p.Packets {
-		fmt.Fprintf(&b, "\tcase *msg.%s:\n\t\t*out = append(*out, %q)\n\t\tdump_%s(x, out)\n", k.Name, k.Name, k.Name)
+		fmt.Fprintf(&b, "\tcase *msg.%s:\n\t\t*out = append(*out, %q)\n\t\tdump_%s(x, out)\n", strcase.ToCamel(k.Name), k.Name, k.Name)
 	}
 	b.WriteString("\tdefault:\n\t\t*out = append(*out, fmt.Sprintf(\"?%T\", v))\n\t}\n}\n\n")
 	b.WriteString("var reuse bool\nvar lastObj = map[string]codec.BinaryCodec{}\n\nfunc newAny(name string) codec.BinaryCodec {\n\tif o, ok := lastObj[name]; ok && reuse {\n\t\treturn o\n\t}\n\to := newAny0(name)\n\tlastObj[name] = o\n\treturn o\n}\n\n")
 	b.WriteString("func newAny0(name string) codec.BinaryCodec {\n\tswitch name {\n")
 	for _, k := range p.Packets {
-		fmt.Fprintf(&b, "\tcase %q:\n\t\treturn &msg.%s{}\n", k.Name, k.Name)
+		fmt.Fprintf(&b, "\tcase %q:\n\t\treturn &msg.%s{}\n", k.Name, strcase.ToCamel(k.Name))
 	}
 	b.WriteString("\t}\n\tpanic(\"packet \" + name)\n}\n\n")
 	// checksum registration
